@@ -16,7 +16,7 @@ POAbsent == {"z", "c"}
 POProps == {S \in SUBSET PONames : Cardinality(S) <= (IF K >= 3 THEN 4 ELSE 3)}
 POOrders == UNION {[1..n -> PONames \cup POAbsent] : n \in 0..K}
 \* names whose byte order differs from the order of their JSON-encoded forms
-PONames2 == {"a", "a!", "a b", "a<b", "aZ", "a_q", "a_bs", "a&", "b"}
+PONames2 == {"a", "a!", "a b", "a<b", "aZ", "a_q", "a_bs", "a&", "b", "C_01", "C_07", "C_0b", "C_7f", "U_tag"}
 POProps2 == {S \in SUBSET PONames2 : Cardinality(S) >= 2 /\ Cardinality(S) <= (IF K >= 3 THEN 4 ELSE 3)}
 POOrders2 == {<<>>} \cup {<<x>> : x \in {"a", "aZ", "z"}}
 \* LONG orders: more entries than properties, the absent names ahead of, between and behind the present ones
@@ -46,7 +46,8 @@ RTAtoms ==
   \cup {[type |-> "number"]}
   \cup {[defs |-> m] : m \in {EmptyFcn, [x |-> IntS], [x |-> FalseS]}}
   \cup {[definitions |-> m] : m \in {EmptyFcn, [x |-> TrueS]}}
-  \cup {[properties |-> m] : m \in {EmptyFcn, [a |-> IntS], [a |-> FalseS, b |-> TrueS]}}
+  \cup {[properties |-> m] : m \in {EmptyFcn, [a |-> IntS], [a |-> FalseS, b |-> TrueS],
+                                     ("C_01" :> IntS) @@ ("C_7f" :> TrueS), ("U_tag" :> IntS) @@ ("C_0b" :> FalseS) @@ ("C_07" :> TrueS)}}
   \cup {[patternProperties |-> m] : m \in {EmptyFcn, ("^a" :> IntS)}}
   \cup {[dependentRequired |-> m] : m \in {EmptyFcn, [a |-> <<>>], [a |-> <<"b">>]}}
   \cup {[dependentSchemas |-> m] : m \in {EmptyFcn, [a |-> FalseS]}}
